@@ -74,6 +74,10 @@ def bytes_to_blocks(
         found_constants.found_index(0)
 
     for opcode, arg, n_args, offset, next_offset in _parse_bytes(b):
+        # A byte which is not an opcode (hand written bytecode) has a name like "<7>"
+        # in `dis.opname`, which could not be turned back into an opcode
+        if dis.opname[opcode] not in dis.opmap:
+            raise NotImplementedError(f"Unknown opcode {opcode} at offset {offset}")
 
         # Compute the jump targets, initially with just the byte offset
         # Once we know all the block targets, we will transform to be block offsets
